@@ -12,7 +12,7 @@ from vlib import core, mix
 LEVEL = "exploration"
 
 
-def gtf_errors(path, chroms, label):
+def gtf_errors(path, chroms, label, ann_genes=None, ann_transcripts=None):
     """structural invariants of one GTF; returns (errors, transcripts dict, genes dict)"""
     from vlib import run
     errs = []
@@ -68,8 +68,13 @@ def gtf_errors(path, chroms, label):
             if g["strand"] != tr["strand"]:
                 errs.append(("gene-strand", "%s gene %s strand %s but transcript %s strand %s" % (label, t["gene"], g["strand"], tid, tr["strand"])))
             if not (g["start"] <= tr["start"] and tr["end"] <= g["end"]):
-                novel_in_annotated = str(tid).startswith("transcript") and not str(t["gene"]).startswith("novel_gene") and \
-                    label == "transcript_models"
+                # a transcript found in this run (not one of the reference's) attributed to a gene of the reference; the reference may
+                # itself carry IsoQuant-style ids, so the ids are looked up, not parsed
+                if ann_genes is not None:
+                    novel_in_annotated = tid not in ann_transcripts and t["gene"] in ann_genes and label == "transcript_models"
+                else:
+                    novel_in_annotated = str(tid).startswith("transcript") and not str(t["gene"]).startswith("novel_gene") and \
+                        label == "transcript_models"
                 errs.append(("gene-span" + (":novel-transcript-beyond-annotated-gene" if novel_in_annotated else ""),
                              "%s gene %s %d-%d does not contain its transcript %s %d-%d" %
                              (label, t["gene"], g["start"], g["end"], tid, tr["start"], tr["end"])))
@@ -87,7 +92,9 @@ def evaluate(out, w, annotated):
     ep = os.path.join(out, "OUT", "OUT.extended_annotation.gtf")
     if not os.path.exists(mp):
         return [("models-missing", "transcript_models.gtf missing")], 0
-    e1, tm, gm = gtf_errors(mp, w["chroms"], "transcript_models")
+    ann_g = set(g["id"] for g in w["genes"]) if annotated else set()
+    ann_t = set(t["id"] for g in w["genes"] for t in g["transcripts"]) if annotated else set()
+    e1, tm, gm = gtf_errors(mp, w["chroms"], "transcript_models", ann_g, ann_t)
     errs += e1
     n = len(tm)
     for tid, t in tm.items():
@@ -100,7 +107,7 @@ def evaluate(out, w, annotated):
         if not os.path.exists(ep):
             errs.append(("extended-missing", "extended_annotation.gtf missing"))
         else:
-            e2, te, ge = gtf_errors(ep, w["chroms"], "extended_annotation")
+            e2, te, ge = gtf_errors(ep, w["chroms"], "extended_annotation", ann_g, ann_t)
             errs += e2
             n += len(te)
             for tid, (c, s, ex, g) in ref.items():
